@@ -66,6 +66,9 @@ func NewEngine(cfg *Config) *Engine {
 	if kind == "" {
 		kind = "z3"
 	}
+	if v := os.Getenv("VERIF_SOLVER"); v != "" {
+		kind = v // differential runs: the same encoding decided by another solver (z3new, cvc5)
+	}
 	e.solver = NewSolver(kind, e.ts, cfg.Timeout)
 	e.solver.lazyFP = cfg.LazyFP
 	e.solver.fpSolver = cfg.FPSolver
